@@ -252,9 +252,8 @@ fn scenario(w: &mut World, ctx: &RunCtx, states: &mut Vec<u64>) -> Result<(), Vi
                 let pick = w.ch.choose("field", 16);
                 let nv = w.ch.choose("newval", 8);
                 let c = corrupt_length_field(&mut body_rng, &d, pick, nv);
-                // the key id byte of a sealed datagram is only significant modulo 4 (C02's subject): such an
-                // edit, like an unchanged copy, is a replay of genuine content and not a forgery
-                if c == *d || (!World::is_init_datagram(&d) && c.len() == d.len() && !c.is_empty() && c[1..] == d[1..] && c[0] % 4 == d[0] % 4) {
+                // an edit that leaves the datagram unchanged is a replay of genuine content and not a forgery
+                if c == *d {
                     verbatim_of = Some(r);
                 }
                 (c, "length-corrupted-genuine")
